@@ -124,6 +124,10 @@ type Opts struct {
 	// TierHooks wires the tier hooks as app/keepers does; false leaves them out
 	// (frame contract: tier hooks write the tier store only).
 	TierHooks bool
+	// PerpAmm / LevAmm wrap the amm keeper handed to the perpetual / leveragelp keeper (which see it
+	// through an expected-keeper interface), e.g. to replace the pricing estimates by contracts.
+	PerpAmm func(real *ammkeeper.Keeper) perpetualtypes.AmmKeeper
+	LevAmm  func(real *ammkeeper.Keeper) leveragelptypes.AmmKeeper
 }
 
 func New(o Opts) *Env {
@@ -148,10 +152,18 @@ func New(o Opts) *Env {
 		e.Param, e.Bank, ak, orc, e.Comm, *e.Aprof, *e.Acc, nil)
 	e.Stable = stablestakekeeper.NewKeeper(cdc, ss(stablestaketypes.StoreKey), Gov, e.Bank, e.Comm, *e.Aprof)
 	e.Comm.SetHooks(commitmentkeeper.NewMultiCommitmentHooks(e.Estaking.CommitmentHooks()))
-	e.Perp = perpetualkeeper.NewKeeper(cdc, ss(perpetualtypes.StoreKey), Gov, e.Amm, e.Bank, orc, *e.Aprof, e.Param, nil)
+	var perpAmm perpetualtypes.AmmKeeper = e.Amm
+	if o.PerpAmm != nil {
+		perpAmm = o.PerpAmm(e.Amm)
+	}
+	e.Perp = perpetualkeeper.NewKeeper(cdc, ss(perpetualtypes.StoreKey), Gov, perpAmm, e.Bank, orc, *e.Aprof, e.Param, nil)
 	e.Mc = masterchefkeeper.NewKeeper(cdc, ss(mastercheftypes.StoreKey), *e.Param, e.Comm, e.Amm, orc, *e.Aprof, *e.Acc, e.Stable, *e.Tokenomics, ak, e.Bank, e.Estaking, Gov)
 	e.Burner = burnerkeeper.NewKeeper(cdc, ss(burnertypes.StoreKey), e.Bank, Gov)
-	e.Lev = leveragelpkeeper.NewKeeper(cdc, ss(leveragelptypes.StoreKey), Gov, e.Amm, e.Bank, orc, e.Stable, e.Comm, *e.Aprof, *e.Mc, *e.Acc)
+	var levAmm leveragelptypes.AmmKeeper = e.Amm
+	if o.LevAmm != nil {
+		levAmm = o.LevAmm(e.Amm)
+	}
+	e.Lev = leveragelpkeeper.NewKeeper(cdc, ss(leveragelptypes.StoreKey), Gov, levAmm, e.Bank, orc, e.Stable, e.Comm, *e.Aprof, *e.Mc, *e.Acc)
 	e.Ts = &tradeshieldkeeper.Keeper{}
 	e.Tier = tierkeeper.NewKeeper(cdc, ss(tiertypes.StoreKey), e.Bank, orc, *e.Aprof, e.Amm, e.Estaking, *e.Mc, e.Comm, Staking{}, e.Perp, e.Lev, e.Stable, *e.Ts)
 	e.Amm.SetTierKeeper(e.Tier)
